@@ -61,7 +61,12 @@ def gen_case(r, nops, leak_probe=False):
             else:
                 ops.append({"t": "advance", "ms": r.choice([100, 100, 6000])})
         if mid_break:
-            ops.append({"t": "break"})
+            if r.random() < 0.4 and issued:
+                # the peer answers with a frame the reader cannot accept (payload longer than the session allows) and
+                # keeps the link open: for the engine that is the end of this link, like any other read error
+                ops.append({"t": "reply_oversize", "id": r.choice(issued[-3:]), "len": r.choice([1025, 5000, 4294967295])})
+            else:
+                ops.append({"t": "break"})
         ops.append({"t": "advance", "ms": 6000})
         if not mid_break and r.random() < 0.3:
             ops.append({"t": "break"})
@@ -75,8 +80,14 @@ def to_terms(case, ob):
     evs_all, obs_all = [], []
     mon = []
     replies_seen = {}
+    epoch = 0            # bumps whenever the current link ends (break, or a frame the reader must refuse)
+    written_at = {}      # id -> epoch in which the peer received the request
     for t, (op, o) in enumerate(zip(case["ops"], ob["ops"])):
         evs = []
+        expect_done = None
+        if op["t"] in ("reply", "reply_payload") and written_at.get(op["id"]) == epoch and replies_seen.get(op["id"], 0) == 0 \
+                and any(a == op["id"] and now + 11 - b < case["timeout_ms"] for (a, b) in outstanding):
+            expect_done = op["id"]
         if op["t"] == "issue":
             evs.append("Issue %d" % op["id"])
             outstanding.append((op["id"], now))
@@ -87,7 +98,7 @@ def to_terms(case, ob):
             evs.append("PeerPing %d" % op["id"])
         elif op["t"] == "push":
             evs.append("PeerPush")
-        elif op["t"] == "break":
+        elif op["t"] in ("break", "reply_oversize"):
             evs.append("LinkBreak")
         elif op["t"] == "advance":
             now += op["ms"]
@@ -95,7 +106,11 @@ def to_terms(case, ob):
         for (i, t0) in list(outstanding):
             if now - t0 >= case["timeout_ms"]:
                 evs.append("Timeout %d" % i)
+        if op["t"] in ("break", "reply_oversize"):
+            epoch += 1
         written = [f["id"] for f in o["peer_frames"] if f.get("name") == "S2M_AUTH"]
+        for w in written:
+            written_at[w] = epoch
         pongs = [f["id"] for f in o["peer_frames"] if f.get("name") == "PONG"]
         completed, timedout = [], []
         for ids, res in o["done"].items():
@@ -111,6 +126,8 @@ def to_terms(case, ob):
                 timedout.append(i)      # failed without a reply (timeout, or the replaced link's writer is gone)
             else:
                 mon.append((f"request {i} ended with {res}", t))
+        if expect_done is not None and expect_done not in completed:
+            mon.append((f"request {expect_done} was written to the live link and the peer answered with its id in time, yet it was not completed by that reply", t))
         evs_all.append("[" + ";".join(evs) + "]")
         obs_all.append("cob [%s] [%s] [%s] [%s]" % (";".join(map(str, written)), ";".join(map(str, pongs)),
                                                    ";".join(map(str, completed)), ";".join(map(str, timedout))))
@@ -124,7 +141,7 @@ def window_monitor(case, ob):
     out = []
     unanswered = set()
     for t, (op, o) in enumerate(zip(case["ops"], ob["ops"])):
-        if op["t"] == "break":
+        if op["t"] in ("break", "reply_oversize"):
             unanswered.clear()
         for f in o["peer_frames"]:
             if f.get("name") == "S2M_AUTH":
